@@ -532,6 +532,9 @@ impl World {
             o.text,
             rec.post_hash
         ));
+        if std::env::var("MDK_SIM_DUMP_VIEWS").is_ok() && node < self.views.len() {
+            self.log.push(format!("  VIEW n{} {}", node, serde_json::to_string(&self.views[node]).unwrap_or_default()));
+        }
         self.history.push(rec.clone());
         rec
     }
